@@ -176,6 +176,38 @@ func Expected(s string) (t string, failed bool, want [3]bool) {
 	return t, false, want
 }
 
+// labelValidators are the single-label validators the name validators are
+// built from.  C03 does not state their grammar, only the shape of their
+// errors matters here: a *LabelError carrying the whole original label.
+var labelValidators = []validator{
+	{"ValidateHostnameLabel", netutil.ValidateHostnameLabel},
+	{"ValidateDomainNameLabel", netutil.ValidateDomainNameLabel},
+	{"ValidateTLDLabel", netutil.ValidateTLDLabel},
+	{"ValidateServiceNameLabel", netutil.ValidateServiceNameLabel},
+}
+
+// CheckLabels runs the label validators on s: no panic, and every rejection
+// is a *LabelError whose Label is exactly s.
+func CheckLabels(s string) (fn, what string) {
+	for _, v := range labelValidators {
+		var err error
+		if pv, panicked := vh.Try(func() { err = v.f(s) }); panicked {
+			return v.name, fmt.Sprintf("panic: %v", pv)
+		}
+		if err == nil {
+			continue
+		}
+		le, ok := err.(*netutil.LabelError)
+		switch {
+		case !ok || le == nil:
+			return v.name, fmt.Sprintf("rejection is a %T, not a *netutil.LabelError", err)
+		case le.Label != s:
+			return v.name, fmt.Sprintf("LabelError.Label (%d bytes) is not the original input (%d bytes)", len(le.Label), len(s))
+		}
+	}
+	return "", ""
+}
+
 // Orders in which the three validators are called on one input ("no hidden
 // state": a verdict may not depend on what was validated just before).
 var (
@@ -207,7 +239,7 @@ func CheckOrder(s string, want [3]bool, order [3]int) (fn, what string, obs [3]O
 		case !o.Nil && o.Type != "*netutil.AddrError":
 			return v.name, "rejection is a " + o.Type + ", not a *netutil.AddrError", obs
 		case !o.Nil && !o.AddrIsIn:
-			return v.name, "AddrError.Addr is not the original input", obs
+			return v.name, fmt.Sprintf("AddrError.Addr is not the original input (%d bytes)", len(s)), obs
 		}
 	}
 	if obs[0].Nil && !obs[1].Nil {
@@ -329,6 +361,11 @@ func replayNames(args []string) error {
 				naccepted.Add(1)
 			}
 			resv[w].Add(Entry{S: s, Want: want}, rngs[w])
+			if m == Canonical || len(s) > 200 {
+				if fn, what := CheckLabels(s); fn != "" {
+					res.Mismatch(fmt.Sprintf("%s(%s)", fn, shortQ(s)), what+" [G names]", map[string]any{"input": s, "input_go": strconv.Quote(s), "abstract": v.R})
+				}
+			}
 			if fn, what, obs := CheckOne(s, want); fn != "" {
 				key := s
 				// Prefer the seed-independent representative as the key.
